@@ -249,3 +249,33 @@ def _closure_tests_class(F, g, t, c):
 def _option_chain_filters_on_class(F, g):
     """the lookup written as an Option chain: the returned value is slot.as_ref().filter(|e| e.class == class).map(..)"""
     return sem.option_chain_filtered(F, g, lambda c, t: _closure_tests_class(F, g, t, c))
+
+
+LAYOUT_BUILDERS = {
+    "op_field": "the Field instruction runs inside the class declaration, on the class value being built on the stack",
+    "define_regexp_class": "std-lib bootstrap: the declared class is completed before any program runs",
+}
+
+
+def class_layout_frozen(rec, F):
+    """Both caches answer by class alone: the invoke cache assumes that an instance of the cached class has no field of
+    the method's name, the property cache that the field sits at the cached slot, and an instance is allocated with as
+    many slots as its class has fields at that moment. All three hold only if a class stops gaining fields once it can
+    have instances."""
+    R = rec.rule("F4.cache-layout", "Class::add_field is called only while a class is being constructed (on the result of a class constructor in the same function, by the Field instruction of a class declaration, by the std-lib bootstrap): a class that already has instances or warmed call sites never gains a field")
+    n = 0
+    for fn in F.all_fns():
+        if "::test" in fn.path or fn.kind not in ("Fn", "AssocFn", "Closure"):
+            continue
+        for bi, t in fn.calls():
+            if not t["f"].endswith("Class::add_field") or bi not in fn.reachable:
+                continue
+            n += 1
+            d = str(sem.desc_operand(fn, t["args"][0]))
+            built_here = any(("'%s'" % c) in d for c in ("with_inheritance", "bare", "new")) and "Class::" in d
+            why = "receiver constructed in this function" if built_here else LAYOUT_BUILDERS.get(fn.name)
+            ok = why is not None
+            rec.inst(R, "%s: add_field" % fn.name, ok=ok, loc=loc_of(t["sp"]), note=why or "")
+            if not ok:
+                rec.finding(R, "F4.cache-layout/%s" % fn.name, "%s adds a field to a class it did not just construct (%s): instances allocated before have fewer slots than the class now names, and call sites that cached a method for this class keep calling it although the new field shadows it" % (fn.name, d[:120]), loc=loc_of(t["sp"]), fn=fn.path)
+    rec.floor(R, "add_field call sites", n, 5)
